@@ -249,6 +249,14 @@ def run(ctx, chk, tier="quick"):
                     sdesc = expr_str(e)
             jp = py_poly(jd)
             prod_ok = len(step_names) == 1 and jp == Poly.atom(mas.params[3]) * Poly.atom(step_names[0])
+            if len(step_names) == 1 and bl.get(step_names[0]) is not None and not (step_ok and prod_ok):
+                # the division by 3600 may be done on either side of the query: compare the composed expression
+                try:
+                    total = jp.subst({step_names[0]: sql_poly(bl[step_names[0]])})
+                    if total == Poly.atom(mas.params[3]) * Poly.atom("time_step_s") * _inv3600():
+                        step_ok = prod_ok = True
+                except Exception:
+                    pass
             chk.ob("C03.O1", step_ok and prod_ok, where_of(mas, enclosing_stmt(a_jt) if not isinstance(a_jt, ast.Name) else (maflow.cfg.stmt_of.get(maflow.unique_def_node(a_jt)) or mc)),
                    "jump threshold per step = %s with step = %s" % (ast.unparse(jd), sdesc), "rate threshold [mm/h] x time_step_s / 3600",
                    key="match_all_storms|jump-delta", why="the increment threshold is the rate threshold multiplied by the step length in hours")
